@@ -443,13 +443,9 @@ func (e *Engine) objValue(env *Env, obj types.Object) (TV, error) {
 func (e *Engine) loadIn(env *Env, p *Ptr) (Value, error) {
 	s := env.s
 	if env.inOld && env.old != nil {
-		saved := s.heap
-		s.heap = map[string]Term{}
-		for k, v := range env.old.heap {
-			s.heap[k] = v
-		}
+		restore := s.enterOld(env.old)
 		v, err := s.load(p)
-		s.heap = saved
+		restore()
 		return v, err
 	}
 	return s.load(p)
@@ -461,7 +457,7 @@ func (e *Engine) heapIn(env *Env, key, sort string) Term {
 		if t, ok := env.old.heap[key]; ok {
 			return t
 		}
-		return e.heapInit(key, sort, false)
+		return e.heapLazy(s, key, sort, lazySeq(key, env.old.pending, env.old.allSeq, env.old.allPrev, env.old.allExcept))
 	}
 	return s.heapGet(key, sort)
 }
@@ -1034,15 +1030,12 @@ func (e *Engine) evalCall(env *Env, n *ECall) (TV, error) {
 			return TV{}, fmt.Errorf("string() of %s", t.Sort)
 		}
 		st := v.T.Underlying().(*types.Slice)
-		saved := s.heap
+		restore := func() {}
 		if env.inOld && env.old != nil {
-			s.heap = map[string]Term{}
-			for k, hv := range env.old.heap {
-				s.heap[k] = hv
-			}
+			restore = s.enterOld(env.old)
 		}
 		r := e.bytesToString(s, t, st.Elem())
-		s.heap = saved
+		restore()
 		return TV{r, types.Typ[types.String]}, nil
 	case "boxed":
 		// boxed(x, "T", v): interface value x holds a (non-pointer) value of dynamic type T equal to v
@@ -1072,12 +1065,7 @@ func (e *Engine) evalCall(env *Env, n *ECall) (TV, error) {
 			return TV{}, fmt.Errorf("boxed(): use as() for pointer-like types")
 		}
 		key, sort := e.boxKey(ty)
-		h := s.heapGet(key, sort)
-		if env.old != nil && env.inOld {
-			if hv, ok := env.old.heap[key]; ok {
-				h = hv
-			}
-		}
+		h := e.heapIn(env, key, sort)
 		return TV{And(Eq(App("i-type", SInt, x), IntLit(int64(e.tm.TypeID(ty)))), Eq(Select(h, App("i-val", SInt, x)), v)), types.Typ[types.Bool]}, nil
 	case "declared":
 		// declared(x): the local variable x has been declared on this path (its cell exists)
